@@ -96,3 +96,11 @@ package eds
 //@   modifies c.axisCache[0]
 //@   ensures cacheOK(c) && c.inner == old(c.inner)
 //@   checks err == nil ==> entryOK(c.inner, 0, idx.Row, ax) && len(ax.shares) != 0 && result0.Share == ax.shares[idx.Col]
+
+// The share list read from a stream always has odsSize*odsSize entries (missing ones are padding).
+//@ func ReadShares
+//@   property C05
+//@   requires odsSize >= 0 && shareSize >= 0
+//@   ensures err == nil ==> len(result0) == odsSize * odsSize
+//@   loop 1: invariant len(shares) == odsSize * odsSize
+//@   loop 2: invariant len(shares) == odsSize * odsSize
